@@ -194,6 +194,17 @@ def chain1d_probe(ctx, d, cls, model, g, method_name, nquad, corr=True, syntheti
         exact_mass = lambda a, b: tm._exact(a, b, 0)
     ok = oracle_1d(ctx, d, cls, g, ax, o, q, q0, intensity, lo, hi, None if synthetic is not None else nu0, nquad,
                    exact_mass=exact_mass)
+    if ok and method_name == "INVERSION" and intensity > 0:
+        # the inversion sampler's per-state probability is rate / intensity (S: against create_q_vector, itself checked above)
+        prob = mc.sampling.probability_to_jump_to_state
+        for k in range(n):
+            if k != o:
+                p = prob(k - o)
+                if not abs(p * intensity - max(float(q[k]), 0.0)) <= 1e-13 * intensity + 1e-12 * abs(float(q[k])):
+                    ctx.fail("oracle", "c01.jumpprob_is_rate", d, {"k": k, "probability_to_jump_to_state": float(p),
+                                                                 "rate_over_intensity": float(q[k]) / intensity}, cls=cls)
+                    ok = False
+                    break
     if not ok or not corr:
         return
     # ---- C: cell structure
@@ -532,6 +543,27 @@ def _copula_probe(ctx, d, cls, corr=True):
             if not abs(strip - hull) <= 1e-10 * max(abs(intensity), 1e-300):
                 ctx.fail("oracle", "c01.strip_mass", d, {"column": i, "sum_of_cells": strip, "mass_of_strip": hull}, cls=cls)
                 return
+    # the two samplers' tables: per-state probability = cell mass / intensity; bucket probability = sum of its cells' masses
+    if intensity > 0:
+        for cs in states:
+            if cs != origin:
+                p = inv.probability_to_jump_to_state(tuple(c - o for c in cs))
+                if not abs(p * intensity - max(masses[cs], 0.0)) <= 1e-13 * intensity + 1e-12 * abs(masses[cs]):
+                    ctx.fail("oracle", "c01.jumpprob_is_rate", d, {"state": list(cs), "probability_to_jump_to_state": float(p),
+                                                                 "rate_over_intensity": masses[cs] / intensity}, cls=cls)
+                    return
+        for j, (bucket, p) in enumerate(zip(bst._buckets_coordinates, bst._buckets_probabilities)):
+            tot = math.fsum(masses[cs] for cs in itertools.product(*[range(l, r + 1) for l, r in bucket]))
+            if not abs(p * intensity - tot) <= 1e-10 * intensity:
+                ctx.fail("oracle", "c01.bucket_mass", d, {"bucket": j, "index_ranges": [list(x) for x in bucket],
+                                                        "bucket_probability_times_intensity": p * intensity, "sum_of_cell_masses": tot}, cls=cls)
+                return
+            if bst._is_axis[j]:
+                cum = bst._precomputed_cum_p_for_axes[j]
+                if not abs(float(cum[-1]) - p) <= 1e-10:
+                    ctx.fail("oracle", "c01.bucket_mass", d, {"bucket": j, "what": "axis table does not add up to the bucket probability",
+                                                            "table_total": float(cum[-1]), "bucket_probability": float(p)}, cls=cls)
+                    return
     if dim == 2 and not copula_cell_oracle(ctx, d, cls, cm.models, cells, masses, intensity, o, n, ctx.n(3, 12)):
         return
     if not corr:
@@ -616,6 +648,45 @@ def guarded(ctx, d, cls, fn, *a, **k):
         ctx.fail("oracle", "c01.chain.raises", d, {"exception": repr(e)[:500], "where": where}, cls=cls)
 
 
+# ------------------------------------------------------------------------------------------------- edge: unequal axis lengths
+def unequal_axes_probe(ctx, d):
+    """raw CTMCGrid with axes of different lengths (same origin index): CoordinateND.right_point clamps every axis with
+    len(axes[0]) (spatial.py:93, marked FIXME) -- the Lean witness `unequal_axes_break_cells` replayed on the implementation"""
+    axes = [np.array(a) for a in d["axes"]]
+    o = d["o"]
+    g = zoo.CTMCGrid(h=d["h"], origin_coordinate=o, axes=axes)
+    cls = dict(stream="edge", unequal_axis_lengths=True)
+    ctx.count("c01.nd.unequal_axes", d, nontrivial=True)
+    out = ctx.lean(f"cellsNd {wll(d['axes'])} {o}").split(" ")
+    m_lo, m_hi = rdll(out[0]), rdll(out[1])
+    bad, mirrors = None, True
+    for i, ax in enumerate(d["axes"]):
+        for c in range(len(ax)):
+            cs = tuple(c if j == i else o for j in range(len(axes)))
+            pt = Coordinates(cs)
+            try:
+                lo = float(g.middle(g.left_point(pt), g[pt])[i])
+                hi = float(g.middle(g[pt], g.right_point(pt))[i])
+            except IndexError as e:          # first axis longer than another one: the clamp runs past the shorter axis
+                if bad is None:
+                    bad = {"axis": i, "k": c, "exception": repr(e)}
+                mirrors = mirrors and c + 1 >= len(ax)
+                continue
+            mirrors = mirrors and fr(lo) == m_lo[i][c] and fr(hi) == m_hi[i][c]
+            if not (lo <= ax[c] <= hi) and bad is None:
+                bad = {"axis": i, "k": c, "cellLo": lo, "x": ax[c], "cellHi": hi}
+    if bad:
+        ctx.fail("oracle", "c01.nd.unequal_axes", d, bad, cls=cls, mirrors_model=mirrors)
+
+
+def unequal_axes_case(rng):
+    h = rng.choice([1.0, 0.5])
+    o = rng.randint(1, 3)
+    mk = lambda nr: [-h * (o - i) for i in range(o)] + [0.0] + [h * (i + 1) for i in range(nr)]
+    n1 = rng.randint(1, 3)
+    return dict(stream="edge_unequal", h=h, o=o, axes=[mk(n1), mk(n1 + rng.randint(1, 3))])
+
+
 # ------------------------------------------------------------------------------------------------------------ entry points
 def run(ctx, corr=True):
     rng = ctx.rng
@@ -626,6 +697,10 @@ def run(ctx, corr=True):
         copula_probe(ctx, copula_case(rng, 2), corr=corr)
     for i in range(ctx.n(5, 80)):
         copula_probe(ctx, copula_case(rng, 3), corr=corr)
+    if corr:
+        unequal_axes_probe(ctx, dict(stream="edge_unequal", h=1.0, o=1, axes=[[-1.0, 0.0, 1.0], [-1.0, 0.0, 1.0, 2.0, 3.0]]))
+        for _ in range(ctx.n(2, 10)):
+            unequal_axes_probe(ctx, unequal_axes_case(rng))
 
 
 def search(ctx):
@@ -645,6 +720,8 @@ def replay(ctx, rec):
     elif d.get("stream") == "copula":
         d = dict(d, margins=[tuple(m) for m in d["margins"]])
         copula_probe(ctx, d)
+    elif d.get("stream") == "edge_unequal":
+        unequal_axes_probe(ctx, d)
     elif d.get("stream") == "1d":
         model = zoo.make_levy(d["family"], d["params"])
         g = grid_from_desc(model, d["grid"])
